@@ -221,7 +221,10 @@ class StructType:
             if pin is not None and isinstance(w, SymInt):
                 if callable(pin):
                     return pin(w)
-                eng().assume(w == pin)
+                c = w == pin
+                if c is False:
+                    raise core.PathAbort(f"pin {self.name}.{k}={pin} contradicts the value range {w!r}")
+                eng().assume(c)
                 return pin
             return w
         raise Unsupported(f"field {self.name}.{k} has an unsupported type")
